@@ -75,6 +75,8 @@ class SendingMessage:
         self.seq = seq
         self.serializer_id = serializer_id
         annotations = annotations or {}
+        # (the length of a memoryview counts its items, which can be wider than a byte: measure the bytes that go on the wire)
+        annotations = {k: (v.tobytes() if isinstance(v, memoryview) else v) for k, v in annotations.items()}
         annotations_size = sum([8 + len(v) for v in annotations.values()])
         flags &= ~FLAGS_COMPRESSED
         if config.COMPRESSION and len(payload) > 100:
